@@ -44,6 +44,15 @@ Inv_StopsAtOptimum == (cfg.opt = "sgd" /\ cfg.x0 = <<R(1)>> /\ st.t >= 1) => (st
 \* without momentum the look-ahead point is the current point: Nesterov = plain
 Inv_NesterovMuZero == (cfg.opt = "sgd" /\ cfg.nesterov /\ RIsZero(cfg.mu)) =>
    (st.t = 0 \/ st.x = [i \in 1..Dim(cfg) |-> RSub(st.x[i], RZ)])
+\* scale equivariance: start, linear terms / kinks and (Adam) the step size times s move the next iterate by the factor s
+ScaleCfg(cf, s) == IF cf.opt = "sgd" THEN [cf EXCEPT !.x0 = [i \in 1..Dim(cf) |-> RMul(cf.x0[i], s)], !.b = [i \in 1..Dim(cf) |-> cf.b[i] * s[1]]]
+                   ELSE [cf EXCEPT !.x0 = [i \in 1..Dim(cf) |-> RMul(cf.x0[i], s)], !.at = [i \in 1..Dim(cf) |-> RMul(cf.at[i], s)], !.alpha = RMul(cf.alpha, s)]
+ScaleSt(s0, s) == IF cfg.opt = "sgd" THEN [s0 EXCEPT !.x = [i \in 1..Dim(cfg) |-> RMul(s0.x[i], s)], !.u = [i \in 1..Dim(cfg) |-> RMul(s0.u[i], s)]]
+                  ELSE [s0 EXCEPT !.x = [i \in 1..Dim(cfg) |-> RMul(s0.x[i], s)]]
+Inv_ScaleEquivariant == (st.t <= 1 /\ (cfg.opt = "adam" => st.exact)) =>
+   LET s == R(2)  nx == IF cfg.opt = "sgd" THEN SgdStep(ScaleCfg(cfg, s), ScaleSt(st, s)) ELSE AdamStep(ScaleCfg(cfg, s), ScaleSt(st, s))
+       pl == IF cfg.opt = "sgd" THEN SgdStep(cfg, st) ELSE AdamStep(cfg, st) IN
+   (cfg.opt = "adam" => pl.exact) => nx.x = [i \in 1..Dim(cfg) |-> RMul(pl.x[i], s)]
 CfgJ == IF cfg.opt = "sgd"
         THEN [opt |-> "sgd", a |-> cfg.a, b |-> cfg.b, c |-> cfg.c, x0 |-> RSeqJ(cfg.x0), alpha |-> RJ(cfg.alpha), mu |-> RJ(cfg.mu), nesterov |-> cfg.nesterov]
         ELSE [opt |-> "adam", hinge |-> Hinge(cfg), cw |-> RSeqJ(cfg.cw), at |-> RSeqJ(cfg.at), x0 |-> RSeqJ(cfg.x0), alpha |-> RJ(cfg.alpha), b1 |-> RJ(cfg.b1), b2 |-> RJ(cfg.b2), eps |-> RJ(cfg.eps)]
